@@ -210,11 +210,17 @@ func (b *Bytecode) RemoveDuplicates() {
 	// update CONST instructions with new indexes
 	// main function
 	updateConstIndexes(b.MainFunction.Instructions, indexMap)
-	// other compiled functions in constants
-	for _, c := range b.Constants {
+	// other compiled functions in constants: the function objects may still
+	// be in use with the old indexes (by the compiler that handed them out
+	// and goes on compiling, by its cache of compiled modules), so the
+	// instructions are rewritten in copies
+	for i, c := range b.Constants {
 		switch c := c.(type) {
 		case *CompiledFunction:
-			updateConstIndexes(c.Instructions, indexMap)
+			fn := *c
+			fn.Instructions = append([]byte{}, c.Instructions...)
+			updateConstIndexes(fn.Instructions, indexMap)
+			b.Constants[i] = &fn
 		}
 	}
 }
